@@ -24,6 +24,7 @@ type Env struct {
 	pkg   string
 	useEntryParams bool
 	inOld bool
+	monitorAssume bool // evaluating a monitor invariant that is being ASSUMED at Lock
 }
 
 func (fc *FuncCtx) newEnv(fr *Frame, st, old *State) *Env {
@@ -137,6 +138,13 @@ func (ev *Env) eval(e Expr) Value {
 		}
 		v := ev.eval(x.X)
 		switch x.Op {
+		case "*":
+			// dereference
+			pl, ok := ev.placeOf(v)
+			if !ok {
+				ev.fail("cannot dereference %s", x.X.String())
+			}
+			return fc.loadPlace(ev.cur(), pl)
 		case "!":
 			return Scalar{tNot(ev.asScalar(v).T), "Bool", types.Typ[types.Bool]}
 		case "-":
@@ -1023,7 +1031,18 @@ func (ev *Env) evalCall(x *ECall) Value {
 		default:
 			ref = ev.asScalar(v).T
 		}
-		return Scalar{"(and (<= 0 " + ref + ") (<= " + ref + " " + fc.allocTerm(ev.cur()) + "))", "Bool", types.Typ[types.Bool]}
+		t := "(and (<= 0 " + ref + ") (<= " + ref + " " + fc.allocTerm(ev.cur()) + "))"
+		if ev.monitorAssume {
+			// shared state cannot refer to objects this activation allocated and has not published yet
+			if sc, ok := v.(Scalar); ok && sc.Typ != nil {
+				if pt, isPtr := sc.Typ.Underlying().(*types.Pointer); isPtr {
+					for _, r := range ev.cur().private[typeKey(pt.Elem())] {
+						t = tAnd(t, tNot(tEq(ref, r)))
+					}
+				}
+			}
+		}
+		return Scalar{t, "Bool", types.Typ[types.Bool]}
 	case "oncedone":
 		v := arg(0)
 		key, ref, _, _ := fc.lockKey(v)
